@@ -183,6 +183,9 @@ func H_C09_chunk_arithmetic() {
 
 // rhSyncProfile: as rhSyncRun with the real recalcObjsPerSyncMsg and concrete object sizes (so that its
 // float64 arithmetic folds to constants): end-to-end runs of the real sender against the real receiver.
+var c09TailN int
+var c09TailSize uint32
+
 func rhSyncProfile(np, nc int, podSize, ctrSize uint32, spare int) {
 	h := &syncHandler{ret: []*api.ContainerUpdate{{ContainerId: "u"}}}
 	st, err := stub.New(h, stub.WithPluginName("plugin"), stub.WithPluginIdx("00"))
@@ -199,6 +202,11 @@ func rhSyncProfile(np, nc int, podSize, ctrSize uint32, spare int) {
 	for i := range ctrs {
 		ctrs[i] = &Container{Id: "ctr", Pid: ctrSize}
 	}
+	for i := 0; i < c09TailN; i++ {
+		// mixed sizes: the large objects come last, so the rejection happens after earlier chunks got through
+		ctrs = append(ctrs, &Container{Id: "big", Pid: c09TailSize})
+	}
+	nc = len(ctrs)
 	us, serr := p.synchronize(context.Background(), pods, ctrs)
 	if serr != nil {
 		cover("failed-cleanly")
@@ -249,4 +257,21 @@ func syncProfiles() {
 	ps := sizes[choose(6)]
 	shape("pods=" + itoa(np))
 	rhSyncProfile(np, nc, ps, cs, choose(2)*4)
+}
+
+// H_C09_sync_large_tail: mixed object sizes with the large ones last (2 or 6 tiny pods, 10 or 40 tiny
+// containers, then 5 or 12 containers of 600 KiB or 1.1 MiB): the first chunks get through, a later one is
+// rejected when few objects are left, the chunk size is recomputed (and raised to the 4+4 minimum) against
+// what is left. Real recalcObjsPerSyncMsg, real stub receiver.
+//verif:property C09
+//verif:instances 16
+//verif:preempt 0
+//verif:expect-cover delivered
+func H_C09_sync_large_tail() {
+	i := instance()
+	np := [...]int{2, 6}[i&1]
+	nc := [...]int{10, 40}[(i>>1)&1]
+	c09TailN = [...]int{5, 12}[(i>>2)&1]
+	c09TailSize = [...]uint32{600 << 10, 1100 << 10}[(i>>3)&1]
+	rhSyncProfile(np, nc, 1, 1, choose(2)*4)
 }
